@@ -654,8 +654,13 @@ fn codecs(rep: &mut Report, r: &mut Rng, thorough: bool) {
         v.toggle_flags(Dr7Flags::from_bits_truncate(fl));
         ok &= v.bits() == other_fields;
         v.set_flags(Dr7Flags::from_bits_truncate(fl), true);
+        ok &= v.bits() == other_fields | fl;
+        v.set_flags(Dr7Flags::from_bits_truncate(fl), false);
+        ok &= v.bits() == other_fields;
+        v.insert_flags(Dr7Flags::from_bits_truncate(fl));
         v.remove_flags(Dr7Flags::from_bits_truncate(fl));
         ok &= v.bits() == other_fields;
+        ok &= unsafe { Dr7Value::from_bits_unchecked(other_fields | fl) }.bits() == other_fields | fl;
         if !ok || Dr7Value::from(Dr7Flags::from_bits_truncate(fl)).bits() != fl {
             rep.violation("Dr7Value|flag-operations-touch-field-bits", J::hex(fl));
         }
